@@ -248,6 +248,14 @@ class Evaluator:
         return True
 
     def py_eq(self, a, b):
+        if isinstance(a, (bytes, bytearray)) and isinstance(b, (list, tuple, bytes, bytearray)):
+            a = list(a)
+        if isinstance(b, (bytes, bytearray)) and isinstance(a, (list, tuple)):
+            b = list(b)
+        if isinstance(a, _ListIter):
+            a = a.items
+        if isinstance(b, _ListIter):
+            b = b.items
         if isinstance(a, (list, tuple)) and isinstance(b, (list, tuple)):
             # the prover's sequences do not distinguish list/tuple in specifications
             return len(a) == len(b) and all(self.py_eq(x, y) for x, y in zip(a, b))
